@@ -152,6 +152,10 @@ def getfn(ctx, mod, name):
 def only_result(rep, name, tag, stores, other, result, loc=None):
     """X2: stores go to the result array only, and nothing else with a memory effect happens"""
     bad = [s for s in stores if str(s[1]) != result]
+    if other and any(t[0] == 'call' for t in other):
+        # a helper was called: addresses derived from its result cannot be attributed to an array by this rule
+        rep.unk('X2', name + tag, 'unexpected item call')
+        return False
     if bad:
         rep.bad('X2', name + tag, 'store to %s[%s]: not the result array %s' % (bad[0][1], bad[0][2], result), loc=bad[0][4],
                 key='%s: store to operand' % name)
